@@ -285,16 +285,14 @@ ParseItem(b, i, d) ==
          IF d = 0 THEN Fail("depth")
          ELSE IF h.ai = 31 THEN
            LET r == ParseIndefElems(b, h.n, d - 1, <<>>) IN IF ~r.ok THEN r ELSE Ok(Arr(r.v), r.n)
-         ELSE LET k == LenOf(h.arg) IN
-           IF k < 0 \/ k > Len(b) THEN Fail("eof")
-           ELSE LET r == ParseElems(b, h.n, k, d - 1, <<>>) IN IF ~r.ok THEN r ELSE Ok(Arr(r.v), r.n)
+         ELSE LET k == LenOf(h.arg) IN       \* k < 0: more elements than any input holds -- the element loop runs into the end (or an earlier fault)
+           LET r == ParseElems(b, h.n, k, d - 1, <<>>) IN IF ~r.ok THEN r ELSE Ok(Arr(r.v), r.n)
     [] h.mj = 5 ->
          IF d = 0 THEN Fail("depth")
          ELSE IF h.ai = 31 THEN
            LET r == ParseIndefPairs(b, h.n, d - 1, <<>>) IN IF ~r.ok THEN r ELSE Ok(Map(r.v), r.n)
          ELSE LET k == LenOf(h.arg) IN
-           IF k < 0 \/ k > Len(b) THEN Fail("eof")
-           ELSE LET r == ParsePairs(b, h.n, k, d - 1, <<>>) IN IF ~r.ok THEN r ELSE Ok(Map(r.v), r.n)
+           LET r == ParsePairs(b, h.n, k, d - 1, <<>>) IN IF ~r.ok THEN r ELSE Ok(Map(r.v), r.n)
     [] h.mj = 6 ->
          IF h.ai = 31 THEN Fail("syntax")
          ELSE LET h2 == ReadHead(b, h.n) IN
